@@ -155,6 +155,43 @@ class Guards:
 class Zone:
     def __init__(self, fn, atoms, extra_terms=()):
         self.fn = fn
+        # a decided `Range<usize>::is_empty(&r)` orders the bounds of r (std: `!(start < end)`)
+        more = set()
+        for a in atoms:
+            if a[0] == "bool" and isinstance(a[1], tuple) and a[1][:2] == ("call", "Range::is_empty") and len(a[1][2]) == 1:
+                r = _deref_value(norm(a[1][2][0]))
+                if r is None:
+                    x = norm(a[1][2][0])
+                    if isinstance(x, tuple) and x and x[0] == "ref" and isinstance(x[1], tuple) and x[1][0] == "place" and len(x[1]) == 3:
+                        # a Range stored in memory: &(*p).iter
+                        base, path = x[1][1], tuple(x[1][2])
+                        ver = None
+                        if len(a[1]) == 4 and isinstance(a[1][3], int) and a[1][3] < len(fn.blocks):
+                            cb = a[1][3]
+                            ver = fn.version_at(cb, len(fn.blocks[cb]["stmts"]), ("M", path[0]))
+                        if ver is not None:
+                            lo, hi = ("load", base, path + ("start",), ver), ("load", base, path + ("end",), ver)
+                            more.add(("le", hi, lo, 0) if a[2] else ("le", lo, hi, -1))
+                    continue
+                lo, hi = mir.simplify(("field", r, "start")), mir.simplify(("field", r, "end"))
+                more.add(("le", norm(hi), norm(lo), 0) if a[2] else ("le", norm(lo), norm(hi), -1))
+        # a decided `Range<usize>::contains(&r, &x)`: true means r.start <= x < r.end; false means x < r.start or x >= r.end,
+        # which is kept as a disjunction and refuted when both branches are (after the closure)
+        self._either = []
+        for a in atoms:
+            if a[0] == "bool" and isinstance(a[1], tuple) and a[1][:2] == ("call", "Range::contains") and len(a[1][2]) == 2:
+                lo, hi = _range_bounds(fn, norm(a[1][2][0]), a[1][3] if len(a[1]) == 4 else None)
+                x = _deref_value(norm(a[1][2][1]))
+                if lo is None or x is None:
+                    continue
+                x = norm(x)
+                if a[2]:
+                    more.add(("le", lo, x, 0))
+                    more.add(("le", x, hi, -1))
+                else:
+                    self._either.append(((x, lo, -1), (hi, x, 0)))
+        if more:
+            atoms = set(atoms) | more
         self.atoms = atoms
         terms = {ZERO}
         for a in atoms:
@@ -166,6 +203,10 @@ class Zone:
                 terms.add(a[2])
         for t in extra_terms:
             terms.add(norm(t))
+        for alt in self._either:
+            for (x_, y_, _) in alt:
+                terms.add(x_)
+                terms.add(y_)
         # a decided three-way comparison of two usize values orders them
         self._cmp = []
         for a in atoms:
@@ -350,10 +391,34 @@ class Zone:
                                 continue
                             if self._add(t, u, 0):
                                 changed = True
-                    if t[2] == ("buf_size",):
-                        for u in self.terms:
-                            if u[0] == "cparam" and self._add(t, u, 0):
-                                changed = True
+                    # ... <= buf_size <= N: every one of them is at most the capacity (also when buf_size itself is not a term here)
+                    for u in self.terms:
+                        if u[0] == "cparam" and self._add(t, u, 0):
+                            changed = True
+                if t[0] == "call" and len(t) == 4 and isinstance(t[3], int) and t[3] < len(self.fn.blocks) and t not in self._ens_done \
+                        and self.fn.term(t[3])["k"] == "call" and mir.callee_path(self.fn.term(t[3])) in ("core::mem::replace", "core::mem::take") and t[2]:
+                    # mem::replace(&mut place, v) / mem::take(&mut place) return what the place held
+                    self._ens_done.add(t)
+                    r = norm(t[2][0])
+                    if isinstance(r, tuple) and r[0] == "ref" and isinstance(r[1], tuple) and r[1][0] == "place" and len(r[1]) == 3 and r[1][2] and isinstance(r[1][2][0], str):
+                        cb = t[3]
+                        old = ("load", r[1][1], tuple(r[1][2]), self.fn.version_at(cb, len(self.fn.blocks[cb]["stmts"]), ("M", r[1][2][0])))
+                        if old not in self.idx:
+                            self._grow(old)
+                            changed = True
+                        if self._add(t, old, 0):
+                            changed = True
+                        if self._add(old, t, 0):
+                            changed = True
+                if t[0] == "field" and isinstance(t[1], tuple) and t[1][:1] == ("phi",) and len(t[1]) == 3 and t not in self._ens_done and not getattr(self, "_nojoin", False):
+                    # a component of a joined value is bounded by what bounds it on every incoming edge (bounds that mean the
+                    # same everywhere: const parameters and literals). Not inductive: each incoming value is judged on the facts
+                    # of its own edge, with the joined value itself left opaque — enough for `cursor.offset < N`, where the
+                    # value carried round the loop is an add_mod(.., N)
+                    self._ens_done.add(t)
+                    for (x, y, w) in _phi_field_bounds(self.fn, t, [u for u in self.terms if u[0] in ("cparam",)] + [z]):
+                        if x in self.idx and y in self.idx and self._add(x, y, w):
+                            changed = True
                 if t[0] == "load" and t[2] in (("iter", "start"), ("iter", "end")) and t[3][0] == "def" and t not in self._ens_done:
                     # std's Range<usize> iterator, the index source of a Drain (trusted, like RangeBounds): `next` hands out
                     # the old start and advances it by one, `next_back` retreats the end by one and hands out the new end;
@@ -398,6 +463,10 @@ class Zone:
             if not changed:
                 break
         self._close()
+        for alt in getattr(self, "_either", []):
+            # each alternative (x - y <= w) is impossible when y - x <= -w - 1 is entailed
+            if all(x_ in self.idx and y_ in self.idx and self.d[self.idx[y_]][self.idx[x_]] <= -w_ - 1 for (x_, y_, w_) in alt):
+                self.contradiction = True
 
     def _grow(self, v):
         """add a term (and its definitional sub-terms) after construction"""
@@ -448,6 +517,62 @@ class Zone:
 
     def is_variant(self, e, v):
         return ("is", e, v) in self.atoms
+
+
+def _phi_field_bounds(fn, t, bounds):
+    phi, fname = t[1], t[2]
+    blk, var = phi[1], phi[2]
+    if not (isinstance(blk, int) and blk < len(fn.blocks)):
+        return []
+    ins = []
+    for p in fn.preds(False).get(blk, []):
+        n = len(fn.blocks[p]["stmts"]) + 1
+        v = fn.version_expr(fn.version_at(p, n, var))
+        e = norm(fn.deep_simplify(("field", v, fname)))
+        ins.append((p, e))
+    if not ins:
+        return []
+    G = Guards(fn)
+    out = []
+    for u in bounds:
+        hi, lo = [], []
+        for (p, e) in ins:
+            if e == t:
+                continue  # the value is carried through unchanged on this edge
+            atoms = set(G.facts_at(p))
+            for (s_, kind, label) in fn.succ_edges(p):
+                if s_ == blk and kind == "normal":
+                    atoms |= set(G.edge_atoms(p, label))
+                    break
+            Z = Zone.__new__(Zone)
+            Z._nojoin = True
+            Z.__init__(fn, atoms, [e, u])
+            if Z.contradiction:
+                continue
+            if e not in Z.idx or u not in Z.idx:
+                hi.append(INF)
+                lo.append(INF)
+                continue
+            hi.append(Z.d[Z.idx[e]][Z.idx[u]])
+            lo.append(Z.d[Z.idx[u]][Z.idx[e]])
+        if hi and max(hi) < INF:
+            out.append((t, u, max(hi)))
+        if lo and max(lo) < INF:
+            out.append((u, t, max(lo)))
+    return out
+
+
+def _range_bounds(fn, r, call_block):
+    """(start, end) terms of the Range<usize> behind reference expression r"""
+    v = _deref_value(r)
+    if v is not None:
+        return norm(mir.simplify(("field", v, "start"))), norm(mir.simplify(("field", v, "end")))
+    if isinstance(r, tuple) and r and r[0] == "ref" and isinstance(r[1], tuple) and r[1][0] == "place" and len(r[1]) == 3 and r[1][2]:
+        base, path = r[1][1], tuple(r[1][2])
+        if isinstance(call_block, int) and call_block < len(fn.blocks) and isinstance(path[0], str):
+            ver = fn.version_at(call_block, len(fn.blocks[call_block]["stmts"]), ("M", path[0]))
+            return ("load", base, path + ("start",), ver), ("load", base, path + ("end",), ver)
+    return None, None
 
 
 RANGE_NEXT = ("<Range<A> as Iterator>::next", "<Range<A> as DoubleEndedIterator>::next_back")
